@@ -249,4 +249,41 @@ theorem cascade_snoc_missing : ∀ (ns : List Name) (j : J) (nm : Name) (v : J),
           | none => rfl
           | some c' => simp only []; rw [putChild_putChild j j1 n1 e1 c' h2]
 
+/-! ### a path of keys and indices, evaluated by the definition, is a walk -/
+
+theorem evalE_names : ∀ (names : List Name) (n : MNode J),
+    (∀ d, walk J.view n.data names = some d →
+      ∃ m, evalE (names.map nameStep) n = ([m], none) ∧ m.loc = n.loc ++ names ∧ m.data = d) ∧
+    (walk J.view n.data names = none → evalE (names.map nameStep) n = ([], none))
+  | [], n => by simp [walk, evalE]
+  | nm :: rest, n => by
+    cases hc : childAt (J.view n.data) nm with
+    | none =>
+      refine ⟨fun d hw => by simp [walk, hc] at hw, fun _ => ?_⟩
+      cases nm with
+      | key k =>
+        cases hd : n.data <;> simp only [childAt, J.view, hd] at hc <;>
+          simp [nameStep, evalE, evalStep, Step.cls, singleOf, J.view, hd, hc, seqFlat]
+      | idx i =>
+        cases hd : n.data <;> simp only [childAt, J.view, hd] at hc <;>
+          simp [nameStep, evalE, evalStep, Step.cls, singleOf, J.view, hd, hc, seqFlat]
+    | some c =>
+      have hstep : evalE (nameStep nm :: rest.map nameStep) n = evalE (rest.map nameStep) (.child n nm c) := by
+        cases nm with
+        | key k =>
+          cases hd : n.data <;> simp only [childAt, J.view, hd] at hc <;> try (simp at hc; done)
+          simp only [nameStep, evalE, evalStep, Step.cls, singleOf, J.view, hd, hc, seqFlat, Option.map_some, Option.toList_some, List.nil_append, List.append_nil]
+          generalize evalE (List.map nameStep rest) _ = r
+          rcases r with ⟨out, _ | e⟩ <;> simp
+        | idx i =>
+          cases hd : n.data <;> simp only [childAt, J.view, hd] at hc <;> try (simp at hc; done)
+          simp only [nameStep, evalE, evalStep, Step.cls, singleOf, J.view, hd, hc, seqFlat, Option.map_some, Option.toList_some, List.nil_append, List.append_nil]
+          generalize evalE (List.map nameStep rest) _ = r
+          rcases r with ⟨out, _ | e⟩ <;> simp
+      obtain ⟨ih1, ih2⟩ := evalE_names rest (.child n nm c)
+      simp only [List.map_cons, hstep, walk, hc]
+      refine ⟨fun d hw => ?_, fun hw => ih2 hw⟩
+      obtain ⟨m, e1, e2, e3⟩ := ih1 d hw
+      exact ⟨m, e1, by simp [e2, MNode.loc], e3⟩
+
 end Treepath
